@@ -26,7 +26,7 @@ TraceInit == Init /\ l = 1 /\ MarkInit
 
 TraceReset ==
   /\ tab' = [i \in Ids |-> FreeSess] /\ nmint' = 0 /\ slot' = [p \in Slots |-> FreeSlot]
-  /\ tiewin' = FALSE /\ res' = <<>> /\ ranNow' = 0 /\ bad' = FALSE
+  /\ tiewin' = FALSE /\ store' = "up" /\ res' = <<>> /\ ranNow' = 0 /\ bad' = FALSE
 
 TraceNext ==
   /\ l <= NLines
@@ -40,6 +40,7 @@ TraceNext ==
                  [] e.op = "EndPost" -> e.a2 \in Slots /\ EndPost(e.a2)
                  [] e.op = "Close"   -> e.a2 \in Ids /\ Close(e.a2)
                  [] e.op = "Advance" -> Advance(e.a2)
+                 [] e.op = "SetStore" -> SetStore(e.a1)
                  [] OTHER -> FALSE
             /\ Match(e)
 
